@@ -5,12 +5,16 @@
 
   Helper developments: `J2M/Proofs/C07RHelpersClosure.lean` (the grouping loop under a re-enumeration of the
   nodes), `C07RHelpers.lean` (the similarity graph on model indices, `SameModels`), `C07RHelpersFields.lean`
-  (fields of merged models, correspondence of replacement entries).  Everything is derived from the C05
+  (fields of merged models, correspondence of replacement entries), `C07RHelpersWitness.lean` (the registry on
+  which `merge_models` returns for one order and raises for another).  Everything is derived from the C05
   specifications (`C05.closure_components`, `C05R.C05_merge_iff`, `C05R.mergeModels_spec`), whose description of
   the result — connected components of the similarity graph of the ORIGINAL key sets — does not mention order.
 
   1. `merged_iff_linked`           which models merge, on model indices (order-free restatement of C05_merge_iff)
-  2. `merge_partition_perm`        same models in another order: same comparator-stage outcome, same partition
+  2. `merge_partition_perm`        same models in another order, both runs return: the same partition
+     `merge_success_perm_false`    "returns for one order iff for the other" is FALSE (RecursionError witness,
+                                   reproduced with the Python code); `merge_success_perm_partial`: the comparator
+                                   stage succeeds / raises independently of the order
   3. `merged_fields_perm_partial`  merged models: same key set (whole run); same optional shape, and same types on
                                    raw member models (one `_merge` call) — what is missing is said there
   4. `closure_order_free`          the grouping loop under a re-enumeration of the nodes
@@ -18,6 +22,7 @@
 -/
 import J2M.Proofs.C07RHelpersClosure
 import J2M.Proofs.C07RHelpersFields
+import J2M.Proofs.C07RHelpersWitness
 namespace J2M.C07R
 open J2M J2M.Reg J2M.C07RH J2M.Closure
 
@@ -112,54 +117,80 @@ example : Linked chainCmp g4 "1A" "1D" := by
 /-! ## 2. the partition does not depend on the registry order -/
 
 /-- **merge_partition_perm.**  `g` well-formed, `g'` the same models in another order, the same comparators.
-    (a) The comparator stage (`simTable`: `_models_cmp_fn` on every pair) succeeds on one iff on the other;
-        it raises the same exception on both (only `ZeroDivisionError`), and then `merge_models` raises it on both.
-        (The grouping loop never fails: `C05.closure_terminates`.)
-    (b) If both `merge_models` calls return, "ends in the same merged model" is the same relation on model indices
-        (`i = j` included: the same models are merged at all), and the replacement lists hold the same member SETS
-        (entries of one list are non-empty and pairwise disjoint, so this is a bijection between the entries).
-    Not covered: that `_merge`/`optimize_type` succeed on one order iff on the other — see
-    `merge_success_perm_Statement`. -/
-theorem merge_partition_perm {cfg : GenCfg} {so : StrOracle} {cmps : List Cmp} {g g' : Graph}
-    (wf : WF g) (hs : SameModels g g') :
-    (((∃ tbl, simTable cmps g = .ok tbl) ↔ ∃ tbl', simTable cmps g' = .ok tbl') ∧
-     (∀ e, simTable cmps g = .error e ↔ simTable cmps g' = .error e) ∧
-     (∀ e, simTable cmps g = .error e →
-        e = .zeroDivision ∧ mergeModels cfg so cmps g = .error e ∧ mergeModels cfg so cmps g' = .error e)) ∧
-    (∀ g₁ g₁' repl repl', mergeModels cfg so cmps g = .ok (g₁, repl) → mergeModels cfg so cmps g' = .ok (g₁', repl') →
-      (∀ i j, Merged repl i j ↔ Merged repl' i j) ∧
-      (∀ p ∈ repl, ∃ q ∈ repl', ∀ j, j ∈ p.2 ↔ j ∈ q.2) ∧
-      (∀ q ∈ repl', ∃ p ∈ repl, ∀ j, j ∈ q.2 ↔ j ∈ p.2) ∧
-      (∀ p ∈ repl, ∀ q ∈ repl', (∃ i, i ∈ p.2 ∧ i ∈ q.2) → ∀ j, j ∈ p.2 ↔ j ∈ q.2)) := by
+    If both `merge_models` calls return, "ends in the same merged model" is the same relation on model indices
+    (`i = j` included: the same models are merged at all), and the replacement lists hold the same member SETS
+    (entries of one list are non-empty and pairwise disjoint, so this is a bijection between the entries;
+    an entry of one list that shares a member with an entry of the other has exactly the same members). -/
+theorem merge_partition_perm {cfg : GenCfg} {so : StrOracle} {cmps : List Cmp} {g g' g₁ g₁' : Graph}
+    {repl repl' : List (String × List String)} (wf : WF g) (hs : SameModels g g')
+    (h : mergeModels cfg so cmps g = .ok (g₁, repl)) (h' : mergeModels cfg so cmps g' = .ok (g₁', repl')) :
+    (∀ i j, Merged repl i j ↔ Merged repl' i j) ∧
+    (∀ p ∈ repl, ∃ q ∈ repl', ∀ j, j ∈ p.2 ↔ j ∈ q.2) ∧
+    (∀ q ∈ repl', ∃ p ∈ repl, ∀ j, j ∈ q.2 ↔ j ∈ p.2) ∧
+    (∀ p ∈ repl, ∀ q ∈ repl', (∃ i, i ∈ p.2 ∧ i ∈ q.2) → ∀ j, j ∈ p.2 ↔ j ∈ q.2) := by
   have wf' := hs.wf wf
-  refine ⟨⟨(hs.simTable_ok wf).symm, fun e => (hs.simTable_error wf e).symm, fun e he => ?_⟩, ?_⟩
-  · exact ⟨C07RH.simTable_error he, mergeModels_of_simTable_error he,
-      mergeModels_of_simTable_error ((hs.simTable_error wf e).2 he)⟩
-  · intro g₁ g₁' repl repl' h h'
-    have hM : ∀ i j, Merged repl i j ↔ Merged repl' i j := fun i j => by
-      rw [C07RH.merged_iff_linked wf h, C07RH.merged_iff_linked wf' h', hs.linked wf]
-    obtain ⟨_, hne, hd⟩ := repl_facts wf h
-    obtain ⟨_, hne', hd'⟩ := repl_facts wf' h'
-    refine ⟨hM, entries_correspond hM hne hd hd', entries_correspond (fun i j => (hM i j).symm) hne' hd' hd, ?_⟩
-    rintro p hp q hq ⟨i, hip, hiq⟩
-    exact entries_same_of_common hM hd hd' hp hq hip hiq
+  have hM : ∀ i j, Merged repl i j ↔ Merged repl' i j := fun i j => by
+    rw [C07RH.merged_iff_linked wf h, C07RH.merged_iff_linked wf' h', hs.linked wf]
+  obtain ⟨_, hne, hd⟩ := repl_facts wf h
+  obtain ⟨_, hne', hd'⟩ := repl_facts wf' h'
+  refine ⟨hM, entries_correspond hM hne hd hd', entries_correspond (fun i j => (hM i j).symm) hne' hd' hd, ?_⟩
+  rintro p hp q hq ⟨i, hip, hiq⟩
+  exact entries_same_of_common hM hd hd' hp hq hip hiq
 
-/-- the full "succeeds on one iff on the other" for the whole of `merge_models` — NOT proved and not refuted:
-    after the grouping, `_merge` calls `merge_field_sets` on the members in registry order and under a registry
-    in which the earlier groups (a different set of groups for another order) are already merged; its only
-    exception is the recursion error of `==` on model pointers (`EqEnv.eq`), raised or not depending on which
-    comparisons the short-circuiting `or` of generator.py:143 reaches.  No counterexample was found. -/
+/-! ### does `merge_models` return for one order iff for the other?  No. -/
+
+/-- the full "succeeds on one iff on the other" for the whole of `merge_models` -/
 def merge_success_perm_Statement : Prop :=
   ∀ (cfg : GenCfg) (so : StrOracle) (cmps : List Cmp) (g g' : Graph), WF g → SameModels g g' →
     ((∃ r, mergeModels cfg so cmps g = .ok r) ↔ ∃ r', mergeModels cfg so cmps g' = .ok r')
+
+/-- **It is FALSE** (for the model, and for the Python code — see below).  Witness `wA` / `wB`
+    (`Proofs/C07RHelpersWitness.lean`): two self-referential models `P = {a: ModelPtr(P)}`, `Q = {a: ModelPtr(Q)}`
+    and three similar models `M1 = {f: int}`, `M2 = {f: ModelPtr(P)}`, `M3 = {f: ModelPtr(Q)}`.
+    Registry order `M1, M2, M3`: `_merge` compares `int == ModelPtr(P)`, then `Union[..] == ModelPtr(Q)` — both
+    `False` at once — and `merge_models` returns.  Order `M2, M3, M1`: `_merge` compares
+    `ModelPtr(P) == ModelPtr(Q)`, i.e. the two field dicts, i.e. `ModelPtr(P) == ModelPtr(Q)` … — `RecursionError`.
+
+    REAL CODE (observed with /venv/bin/python on /repo, and `#eval` of the model agrees): inputs
+    `P = {"a": {"a": null, "p1": 1, "p2": 1}, "p1": 1, "p2": 1}`, `Q` = the same with `q1, q2`,
+    `M1 = {"f": 1, "g": 1}`, `M2 = {"f": <P>, "g": 1}`, `M3 = {"f": <Q>, "g": 1}`, default comparators:
+    `process_meta_data` in the order `P, Q, M1, M2, M3` (or `P, Q, M2, M1, M3`) then `merge_models` → 3 models;
+    in the order `P, Q, M2, M3, M1` → `RecursionError` (the `P`- and `Q`-groups are merged first and become
+    self-referential; then `_merge(M2, M3, M1)` evaluates `ModelPtr(P') == ModelPtr(Q')`). -/
+theorem merge_success_perm_false : ¬ merge_success_perm_Statement := by
+  intro hst
+  obtain ⟨r, hr⟩ := (hst wCfg StrOracle.default wCmp wA wB wA_WF wA_same).1 ⟨_, wA_ok⟩
+  have := wB_err
+  rw [hr] at this
+  simp at this
+
+/-- **merge_success_perm_partial** — the strongest order-free part of "succeeds iff": the comparator stage
+    (`simTable`: `_models_cmp_fn` on every pair of models) succeeds on one order iff on the other; it raises the
+    same exception on both (only the `ZeroDivisionError` of `ModelFieldsPercentMatch` on two empty key sets), and
+    then `merge_models` raises it on both.  The grouping loop never fails (`C05.closure_terminates`).
+    Excluded: the exceptions of `_merge` / `optimize_type` (`merge_success_perm_false`). -/
+theorem merge_success_perm_partial {cfg : GenCfg} {so : StrOracle} {cmps : List Cmp} {g g' : Graph}
+    (wf : WF g) (hs : SameModels g g') :
+    ((∃ tbl, simTable cmps g = .ok tbl) ↔ ∃ tbl', simTable cmps g' = .ok tbl') ∧
+    (∀ e, simTable cmps g = .error e ↔ simTable cmps g' = .error e) ∧
+    (∀ e, simTable cmps g = .error e →
+      e = .zeroDivision ∧ mergeModels cfg so cmps g = .error e ∧ mergeModels cfg so cmps g' = .error e) ∧
+    (∀ tbl, ∃ groups, mergeGroups (simOfTbl tbl) g.models.length = some groups) :=
+  ⟨(hs.simTable_ok wf).symm, fun e => (hs.simTable_error wf e).symm,
+    fun e he => ⟨C07RH.simTable_error he, mergeModels_of_simTable_error he,
+      mergeModels_of_simTable_error ((hs.simTable_error wf e).2 he)⟩,
+    fun tbl => C05.closure_terminates _ _ (simOfTbl_symm tbl)⟩
+
+/-- non-vacuity of the exception clause: two models with empty key sets and the default comparators, in both
+    orders (`C05R.exEmpty`) -/
+example : simTable [.percent 7 10, .number 10] C05R.exEmpty = .error .zeroDivision := by decide +kernel
 
 /-- non-vacuity on the 4-chain: the hypotheses hold, both runs return, and the theorem's conclusion is the
     non-trivial fact that `x1` and `y1` end in the same merged model in the second order as well -/
 example : Merged [("1E", ["1B", "1D", "1A", "1C"])] "1A" "1D" := by
   obtain ⟨g₁, h⟩ := ok_of_toOption g4_run
   obtain ⟨g₁', h'⟩ := ok_of_toOption g4'_run
-  exact ((merge_partition_perm g4_WF g4_same).2 g₁ g₁' _ _ h h').1 "1A" "1D" |>.1
-    ⟨_, List.mem_cons_self, by simp, by simp⟩
+  exact ((merge_partition_perm g4_WF g4_same h h').1 "1A" "1D").1 ⟨_, List.mem_cons_self, by simp, by simp⟩
 
 /-! ## 3. the fields of the merged models -/
 
@@ -201,7 +232,7 @@ theorem merged_fields_perm_partial {cfg : GenCfg} {so : StrOracle} {cmps : List 
   constructor
   · rintro g₁ g₁' repl repl' h h' p hp q hq hc
     exact merged_keys_same wf hs h h' hp hq
-      (((merge_partition_perm wf hs).2 g₁ g₁' repl repl' h h').2.2.2 p hp q hq hc)
+      ((merge_partition_perm wf hs h h').2.2.2 p hp q hq hc)
   · intro g₁ g₁' members members' idx idx' hm h h'
     obtain ⟨hidx, F, F', hF, hF', hsame, hl, hl'⟩ := mergeGroup_perm_struct wf hs hm h h'
     refine ⟨hidx, hsame, _, _, hl, hl', ?_, ?_, ?_⟩
@@ -331,6 +362,8 @@ end J2M.C07R
 #print axioms J2M.C07R.sameModels_wf
 #print axioms J2M.C07R.merged_iff_linked
 #print axioms J2M.C07R.merge_partition_perm
+#print axioms J2M.C07R.merge_success_perm_false
+#print axioms J2M.C07R.merge_success_perm_partial
 #print axioms J2M.C07R.merged_fields_perm_partial
 #print axioms J2M.C07R.closure_order_free
 #print axioms J2M.C07R.closure_order_free_list
